@@ -36,6 +36,8 @@ FUNCS = [
     ("to_camel_case", "gapic/utils/case.py", "to_camel_case", []),
     ("fix_name_segment", "gapic/utils/uri_conv.py", "convert_uri_fieldnames._fix_name_segment", []),
     ("fix_field_path", "gapic/utils/uri_conv.py", "convert_uri_fieldnames._fix_field_path", []),
+    ("field_header_disambiguated", "gapic/schema/wrappers.py", "FieldHeader.disambiguated", [("raw", "Str")]),
+    ("routing_param_disambiguated_field", "gapic/schema/wrappers.py", "RoutingParameter.disambiguated_field", [("field", "Str")]),
 ]
 
 TABLES = {"RESERVED_NAMES": "reservedNames"}       # module-level tables available as Pinned.<name> : List String
